@@ -38,6 +38,8 @@ func oddProfile(class string) *profile.Profile {
 	ap := vlib.AProf{ST: []vlib.AVT{{T: "s1", U: "count"}, {T: "s2", U: "nanoseconds"}}, Samples: []vlib.ASample{
 		{Locs: []vlib.ALoc{lg, lf}, Vals: []int64{1, 10}, Lab: []vlib.ASLab{{K: "k", V: []string{"x"}}}},
 		{Locs: []vlib.ALoc{lf}, Vals: []int64{2, 5}, Num: []vlib.ANLab{{K: "bytes", V: []int64{64}, U: []string{"bytes"}}}},
+		// g reached from a second caller (a graph that is no tree)
+		{Locs: []vlib.ALoc{{Map: m, Rel: 6, Lines: []vlib.ALine{{Fn: g, Line: 21}}}, {Map: m, Rel: 7, Lines: []vlib.ALine{{Fn: vlib.AFn{Name: "h", Sys: "h", File: "b.c", Start: 9}, Line: 30}}}}, Vals: []int64{1, 1}},
 	}}
 	p := vlib.NewConc(0).Profile(ap)
 	switch class {
@@ -152,7 +154,10 @@ func argsOf(c ccase, p *profile.Profile) []string {
 	default:
 		a = append(a, "-"+c.Cmd)
 	}
-	if c.Flag != "" {
+	if k := strings.Index(c.Flag, "+"); k > 0 {
+		// two options at once: "a+b" with value "x" stands for -a -b=x
+		a = append(a, "-"+c.Flag[:k], "-"+c.Flag[k+1:]+"="+c.Val)
+	} else if c.Flag != "" {
 		switch c.Val {
 		case "true":
 			a = append(a, "-"+c.Flag)
